@@ -174,7 +174,8 @@ def run_scenario(job, sc, node_dir):
     import logging
     import whatshap.__main__ as wm
 
-    reps = 2 if cfg.get("repeat") == "twice" else 1
+    # "twice": the first execution happens in its own forked child (see main), this is the second one in the same directory
+    reps = 1
     pool_stats = None
     clock = None
     for rep in range(reps):
@@ -253,7 +254,12 @@ def main():
     for key, names in job.get("census", {}).items():
         census[key] = list(set(names))
     results = []
+    todo = []
     for sc in job["scenarios"]:
+        if sc["config"].get("repeat") == "twice":
+            todo.append((sc, True))  # first execution: a process of its own, outputs stay in the directory
+        todo.append((sc, False))
+    for sc, first_pass in todo:
         sys.stdout.flush()
         sys.stderr.flush()
         pid = os.fork()
@@ -272,6 +278,12 @@ def main():
                 os._exit(code)
         _, st = os.waitpid(pid, 0)
         rp = os.path.join(node_dir, "s%03d" % sc["idx"], "result.json")
+        if first_pass:
+            try:
+                os.unlink(rp)
+            except OSError:
+                pass
+            continue
         if os.path.exists(rp):
             results.append(json.load(open(rp)))
         else:
